@@ -326,7 +326,14 @@ static Json::Value answer(const Json::Value& q) {
     }
     Oomd::OomdContext ctx;
     ctx.setPrekillHooksHandler([&](const Oomd::CgroupContext& c) { return engine->firePrekillHook(c, ctx); });
-    QAdaptor ad(fs, *base, *engine);
+    // "adaptor_base": the IR root handed to the adaptor (what compileDropIn validates against). When it knows a ruleset
+    // the engine was not compiled with, a drop-in for that ruleset passes compileDropIn and is refused by
+    // Engine::addDropInConfig itself - the only way to reach that refusal (and its partial-add cleanup) through the adaptor.
+    std::unique_ptr<Oomd::Config2::IR::Root> abase;
+    if (q.isMember("adaptor_base")) {
+      abase = parser.parse(q["adaptor_base"].asString());
+    }
+    QAdaptor ad(fs, abase ? *abase : *base, *engine);
     Oomd::setStat("oomd.dropin.added", 0);
     Json::Value steps(Json::arrayValue);
     auto snapshot = [&](Json::Value& st) {
